@@ -20,6 +20,13 @@ PROPS = {
         "assumptions": ["type invariant of authorities taken as precondition: auth_shape ('[' only opens the host, only ':port' follows ']', one '@' at most)"],
         "not_covered": ["validity of each part as a value of its own type (grammar lemma G3)"],
     },
+    "C11": {
+        "level": "proof",
+        "units": [{"kind": "verus", "name": "AuthorityMutImpl: window invariant + splice postconditions of set_userinfo/set_host/set_port", "rlimit": 60}],
+        "assumptions": ["arguments satisfy the structural consequences of their grammars (ui_shape, host_shape, port_shape) - taken as preconditions",
+                        "the handle is created on a well-shaped authority (precondition of AuthorityMutImpl::new; its caller RiRefBufImpl::authority_mut is not yet under contract)"],
+        "not_covered": ["uri/ iri/ AuthorityMut wrappers (one-line delegations)"],
+    },
     "C12": {
         "level": "proof",
         "units": [{"kind": "verus", "name": "segment_at / next_segment_from / previous_segment_from / SegmentsImpl::{next,next_back} / first / last / directory / parent vs the positional '/'-split"}],
@@ -42,6 +49,11 @@ PROPS = {
 }
 
 MANIFEST_TEXT = {
+    "C11": {
+        "technique": "Verus data-structure invariant on the real AuthorityMutImpl + functional postconditions over the (prefix, authority, suffix) view",
+        "level_text": "Deductive proof for all buffers, all arguments and (by composition of the per-call contracts) all call sequences: each of set_userinfo/set_host/set_port requires the handle invariant (window inside the buffer, window text is a well-shaped authority) and ensures it again, leaves the text before and after the window unchanged, and makes the window text equal to [userinfo '@'] host [':' port] with exactly the targeted part replaced or removed - which is precisely 'the handle views the new authority'.",
+        "level_note": "Assumed: shapes of the arguments (consequences of their grammars), utils::replace/allocate_range contracts are proved separately (same run), generated as_bytes/len of Port. Not covered: the one-line wrappers in uri/ iri/.",
+    },
     "C12": {
         "technique": "Verus contracts on the real segment scanners and on the double-ended iterator (cursor invariant + per-step postconditions)",
         "level_text": "Deductive proof for all paths: segment_at/next_segment_from/previous_segment_from return exactly the '/'-separated piece at a piece start and the neighbouring piece start; SegmentsImpl::next and next_back preserve the invariant 'front and back cursors are piece starts, front <= back' and yield the first / last remaining piece, so every interleaving yields each piece once and in order (composition of the two contracts, no enumeration of schedules); is_empty, is_absolute, first, last, directory, parent, parent_or_empty are proved against the same positional split.",
@@ -83,7 +95,6 @@ NOT_APPLICABLE = {
     "C08": "check not built yet",
     "C09": "check not built yet",
     "C10": "check not built yet",
-    "C11": "check not built yet",
     "C13": "check not built yet",
     "C14": "all routes except from_vec and the conversions are emitted by the third-party static-regular-grammar derive or macro_rules templates, generic over serde traits; no item in /repo to put a contract on, and neither Verus nor Kani model fmt/serde",
     "C15": "check not built yet",
